@@ -42,11 +42,40 @@ fn audited_history<F: Fm, A: Atomicity>(rng: &mut Rng, nops: usize, st: &mut Sta
     for opno in 0..nops {
         let n = pool.len();
         let i = if n > 0 { rng.below(n) } else { 0 };
-        match if n == 0 { 0 } else { rng.below(16) } {
+        match if n == 0 { 0 } else { rng.below(18) } {
             0 | 1 => {
                 let c = { let __n = *rng.pick(&LENS); F::gen(rng, __n) };
                 let t = attributed(|| Tendril::<F, A>::try_from_byte_slice(&c)).map_err(|_| "construct failed".to_string())?;
                 pool.push((t, c));
+            },
+            16 | 17 => {
+                // two views of ONE buffer pushed onto each other: truly adjacent (the zero-copy merge),
+                // "adjacent" only if the first view's own offset is forgotten, overlapping, or apart
+                let len = pool[i].1.len();
+                if len > 20 {
+                    let o = rng.range(1, len / 3);
+                    let l = rng.range(9, (len - o).min(9 + len / 2));
+                    let x = match rng.below(4) {
+                        0 => o + l,
+                        1 => l,
+                        2 => o,
+                        _ => rng.below(len),
+                    }
+                    .min(len);
+                    let m = rng.range(0, len - x);
+                    let pm = &pool[i].1;
+                    if o + l <= len && F::valid(&pm[o..o + l]) && F::valid(&pm[x..x + m]) && F::valid(&pm[..o]) && F::valid(&pm[..x]) {
+                        let mut model = pm[o..o + l].to_vec();
+                        let second = pm[x..x + m].to_vec();
+                        let mut a = attributed(|| pool[i].0.try_subtendril(o as u32, l as u32)).map_err(|e| format!("subtendril: {e:?}"))?;
+                        let b = attributed(|| pool[i].0.try_subtendril(x as u32, m as u32)).map_err(|e| format!("subtendril: {e:?}"))?;
+                        attributed(|| a.push_tendril(&b));
+                        attributed(|| drop(b));
+                        F::append(&mut model, &second);
+                        st.count(if x == o + l { "sibling_view_pushes:adjacent" } else { "sibling_view_pushes:not-adjacent" });
+                        pool.push((a, model));
+                    }
+                }
             },
             2 => {
                 let cap = *rng.pick(&LENS) as u32;
@@ -465,6 +494,10 @@ pub fn run(args: &Args) -> (Meta, Stats) {
         let hseed = v["history_seed"].as_str().and_then(|s| s.parse().ok()).unwrap_or(0);
         st.case(Some(1));
         st.distinct.insert(2);
+        if v["kind"] == "huge" {
+            super::huge::run_child(&mut st);
+            return (super::meta(args, "replay of the 2 GiB-scale length scenarios", &[]), st);
+        }
         let r = if v["kind"] == "threads" {
             thread_scenario(hseed, v["threads"].as_u64().unwrap_or(4) as usize, &mut st, audit)
         } else {
@@ -536,10 +569,14 @@ pub fn run(args: &Args) -> (Meta, Stats) {
         }
     }
     let _ = (nthreads(), par_run::<fn(usize, usize, &mut Stats)>);
+    if !sanit && !cfg!(miri) {
+        // wrapped length arithmetic shows up as a wild copy: 2 GiB-scale scenarios in a child process (huge.rs)
+        super::huge::run_child(&mut st);
+    }
     st.observe("monitors_active", if audit { "checking-allocator" } else { "none (sanitizer build: the sanitizer is the monitor)" });
     let mut m = super::meta(
         args,
-        "operation histories (construct, with_capacity, push, push_tendril, subtendril, clone, pop front/back, clear, reserve, SendTendril round trip, drop; sizes around the inline/owned/shared and doubling boundaries; Bytes/UTF8/WTF8 x NonAtomic/Atomic) in which only the tendril calls run with allocation attribution on: the checking allocator verifies each dealloc against a live block with the same layout, red zones on free and at reset, poison of freed buffers at reset, and after EVERY operation that the number of live tendril heap buffers equals owned + distinct shared buffers of the pool, and is 0 after the pool is dropped. Thread scenarios: clones/sub-slices of an atomic tendril moved to 2-8 threads that read, clone, mutate (copy-on-write), hand SendTendrils to each other and drop in random orders with yields; last drop on another thread in half of the runs. The same code runs under Miri, ASan and TSan via the sanitizer legs (their reports are merged into this evidence by ./check). Each history is a distinct case (hash = its seed).",
+        "operation histories (construct, with_capacity, push, push_tendril, subtendril, clone, pop front/back, clear, reserve, SendTendril round trip, drop; sizes around the inline/owned/shared and doubling boundaries; Bytes/UTF8/WTF8 x NonAtomic/Atomic) in which only the tendril calls run with allocation attribution on: the checking allocator verifies each dealloc against a live block with the same layout, red zones on free and at reset, poison of freed buffers at reset, and after EVERY operation that the number of live tendril heap buffers equals owned + distinct shared buffers of the pool, and is 0 after the pool is dropped. Thread scenarios: clones/sub-slices of an atomic tendril moved to 2-8 threads that read, clone, mutate (copy-on-write), hand SendTendrils to each other and drop in random orders with yields; last drop on another thread in half of the runs. The same code runs under Miri, ASan and TSan via the sanitizer legs (their reports are merged into this evidence by ./check). Each history is a distinct case (hash = its seed). A child process additionally runs the 2 GiB-scale length scenarios of huge.rs (a crash there is a violation).",
         &[
             "a clean allocator-monitor / sanitizer run is evidence, not proof of memory safety (non-adjacent overflows, reads of freed memory are only seen by Miri/ASan)",
             "Miri runs with permissive provenance because tendril casts integers to pointers",
